@@ -21,6 +21,7 @@ from kawin.precipitation.parameters.Nucleation import BulkDescription
 from kawin.thermo.MultiTherm import MulticomponentThermodynamics, CurvatureOutput, _growthRateOutputFromCurvature
 from kawin.thermo.BinTherm import BinaryThermodynamics
 from kawin.thermo.Thermodynamics import GeneralThermodynamics
+from harness import c09 as _c09
 
 
 # ----------------------------------------------------------------------------- numpy.unique on symbolic data
@@ -361,4 +362,13 @@ HARNESSES = [
                     "thorough": [{"nb": 4, "shape": sh, "strain": True, "eff": False, "sentinel": se, "nph": 1 + (sh == "plate")} for sh in ("sphere", "plate") for se in (False, True)] +
                                 [{"nb": 3, "shape": "sphere", "strain": False, "eff": True, "sentinel": False}] +
                                 [{"nb": 2, "shape": "needle", "strain": True, "eff": True, "sentinel": True, "nph": 2}]}),
+    # the driving force that the phase-boundary / critical-radius relations are about is the one of the QUERIED temperature: the real
+    # sampling path (body shared with C09.sampling_history) after an earlier query at another, arbitrarily close temperature
+    Harness("C12.df_sampling_temperature", _c09.sampling_history,
+            functions=[GeneralThermodynamics.getDrivingForce, GeneralThermodynamics._getDrivingForceSampling, GeneralThermodynamics._getPrecCompositionSetSamplingDF],
+            assumptions=["T1 != T2 symbolic, arbitrarily close; sampled precipitate free energies are arbitrary functions of the sampling temperature"],
+            stubs=["pycalphad calculate / CompositionSet / matrix local equilibrium: uninterpreted functions (see C09.sampling_history)"],
+            bounds={"sample points": "npts", "queries": 2},
+            params={"quick": [{"npts": 2, "keep": True}, {"npts": 2, "keep": True, "ordered": True}],
+                    "thorough": [{"npts": 3, "keep": True}, {"npts": 3, "keep": True, "ordered": True}, {"npts": 2, "keep": False}]}),
 ]
